@@ -29,7 +29,6 @@ pub assume_specification[ Duration::new ](secs: u64, nanos: u32) -> (r: Duration
     ensures dur_ns(r) == secs as int * 1_000_000_000 + nanos as int;
 
 // ---- C12 specification: a SignedDuration denotes an exact signed nanosecond count ----
-pub open spec fn NS() -> int { 1_000_000_000 }
 impl SignedDuration {
     /// the denoted number of nanoseconds (mathematical integer)
     pub open spec fn tot(self) -> int { self.secs as int * 1_000_000_000 + self.nanos as int }
@@ -82,6 +81,31 @@ impl vstd::std_specs::ops::DivSpecImpl<i32> for SignedDuration {
     open spec fn obeys_div_spec() -> bool { true }
     open spec fn div_req(self, rhs: i32) -> bool { self.wf() && rhs != 0 && representable(tdiv(self.tot(), rhs as int)) }
     open spec fn div_spec(self, rhs: i32) -> SignedDuration { of_tot(tdiv(self.tot(), rhs as int)) }
+}
+impl vstd::std_specs::ops::MulSpecImpl<SignedDuration> for i32 {
+    open spec fn obeys_mul_spec() -> bool { true }
+    open spec fn mul_req(self, rhs: SignedDuration) -> bool { rhs.wf() && representable(rhs.tot() * self) }
+    open spec fn mul_spec(self, rhs: SignedDuration) -> SignedDuration { of_tot(rhs.tot() * self) }
+}
+impl vstd::std_specs::ops::AddAssignSpecImpl for SignedDuration {
+    open spec fn obeys_add_assign_spec() -> bool { true }
+    open spec fn add_assign_req(&self, rhs: SignedDuration) -> bool { self.wf() && rhs.wf() && representable(self.tot() + rhs.tot()) }
+    open spec fn add_assign_spec(&self, rhs: SignedDuration) -> &SignedDuration { &of_tot(self.tot() + rhs.tot()) }
+}
+impl vstd::std_specs::ops::SubAssignSpecImpl for SignedDuration {
+    open spec fn obeys_sub_assign_spec() -> bool { true }
+    open spec fn sub_assign_req(&self, rhs: SignedDuration) -> bool { self.wf() && rhs.wf() && representable(self.tot() - rhs.tot()) }
+    open spec fn sub_assign_spec(&self, rhs: SignedDuration) -> &SignedDuration { &of_tot(self.tot() - rhs.tot()) }
+}
+impl vstd::std_specs::ops::MulAssignSpecImpl<i32> for SignedDuration {
+    open spec fn obeys_mul_assign_spec() -> bool { true }
+    open spec fn mul_assign_req(&self, rhs: i32) -> bool { self.wf() && representable(self.tot() * rhs) }
+    open spec fn mul_assign_spec(&self, rhs: i32) -> &SignedDuration { &of_tot(self.tot() * rhs) }
+}
+impl vstd::std_specs::ops::DivAssignSpecImpl<i32> for SignedDuration {
+    open spec fn obeys_div_assign_spec() -> bool { true }
+    open spec fn div_assign_req(&self, rhs: i32) -> bool { self.wf() && rhs != 0 && representable(tdiv(self.tot(), rhs as int)) }
+    open spec fn div_assign_spec(&self, rhs: i32) -> &SignedDuration { &of_tot(tdiv(self.tot(), rhs as int)) }
 }
 
 // ---- lemmas (all proved, no assumptions) ----
@@ -326,7 +350,7 @@ impl SignedDuration {
     requires
         -999_999_999 <= nanos <= 999_999_999,
     ensures
-        r.secs == secs, r.nanos == nanos,
+        r.secs == secs, r.nanos == nanos, r.tot() == secs as int * 1_000_000_000 + nanos as int, signs_agree(secs as int, nanos as int) ==> r.wf(),
 {
         assert!(nanos <= 999_999_999);
         assert!(nanos >= -999_999_999);
@@ -341,7 +365,7 @@ impl SignedDuration {
     requires
         -999_999_999 <= nanos <= 999_999_999,
     ensures
-        r.secs == secs, r.nanos == nanos,
+        r.secs == secs, r.nanos == nanos, r.tot() == secs as int * 1_000_000_000 + nanos as int, signs_agree(secs as int, nanos as int) ==> r.wf(),
 {
         { let verif_da: bool = nanos <= 999_999_999; assert(verif_da); };
         { let verif_da: bool = nanos >= -999_999_999; assert(verif_da); };
@@ -703,13 +727,24 @@ impl SignedDuration {
 {
         proof { lemma_canonical(self.tot() - rhs.tot()); }
 
-        let Some(rhs) = rhs.checked_neg() else { return None };
-        self.checked_add(rhs)
+        match rhs.checked_neg() {
+            Some(rhs) => self.checked_add(rhs),
+            
+            
+            
+            None => {
+                let one = SignedDuration::new_unchecked(1, 0);
+                let Some(lhs) = self.checked_add(one) else { return None };
+                let Some(rhs) = rhs.checked_add(one) else { return None };
+                let Some(rhs) = rhs.checked_neg() else { return None };
+                lhs.checked_add(rhs)
+            }
+        }
     }
 }
 
 impl SignedDuration {
-// @fn SignedDuration::saturating_sub @src src/signed_duration.rs:1046
+// @fn SignedDuration::saturating_sub @src src/signed_duration.rs:1057
 
     pub const fn saturating_sub(self, rhs: SignedDuration) -> (r: SignedDuration)
     requires
@@ -731,7 +766,7 @@ impl SignedDuration {
 }
 
 impl SignedDuration {
-// @fn SignedDuration::checked_mul @src src/signed_duration.rs:1072
+// @fn SignedDuration::checked_mul @src src/signed_duration.rs:1083
 
     pub const fn checked_mul(self, rhs: i32) -> (r: Option<SignedDuration>)
     requires
@@ -757,7 +792,7 @@ impl SignedDuration {
 }
 
 impl SignedDuration {
-// @fn SignedDuration::saturating_mul @src src/signed_duration.rs:1103
+// @fn SignedDuration::saturating_mul @src src/signed_duration.rs:1114
 
     pub const fn saturating_mul(self, rhs: i32) -> (r: SignedDuration)
     requires
@@ -788,7 +823,7 @@ impl SignedDuration {
 }
 
 impl SignedDuration {
-// @fn SignedDuration::checked_div @src src/signed_duration.rs:1144
+// @fn SignedDuration::checked_div @src src/signed_duration.rs:1155
 
     pub const fn checked_div(self, rhs: i32) -> (r: Option<SignedDuration>)
     requires
@@ -834,7 +869,7 @@ impl SignedDuration {
 }
 
 impl SignedDuration {
-// @fn SignedDuration::as_hours @src src/signed_duration.rs:1646
+// @fn SignedDuration::as_hours @src src/signed_duration.rs:1657
 
     pub const fn as_hours(&self) -> (r: i64)
     requires
@@ -847,7 +882,7 @@ impl SignedDuration {
 }
 
 impl SignedDuration {
-// @fn SignedDuration::as_mins @src src/signed_duration.rs:1669
+// @fn SignedDuration::as_mins @src src/signed_duration.rs:1680
 
     pub const fn as_mins(&self) -> (r: i64)
     requires
@@ -860,7 +895,7 @@ impl SignedDuration {
 }
 
 impl SignedDuration {
-// @fn SignedDuration::abs @src src/signed_duration.rs:1692
+// @fn SignedDuration::abs @src src/signed_duration.rs:1703
 
     pub const fn abs(self) -> (r: SignedDuration)
     requires
@@ -873,7 +908,7 @@ impl SignedDuration {
 }
 
 impl SignedDuration {
-// @fn SignedDuration::unsigned_abs @src src/signed_duration.rs:1715
+// @fn SignedDuration::unsigned_abs @src src/signed_duration.rs:1726
 
     pub const fn unsigned_abs(self) -> (r: Duration)
     requires
@@ -886,7 +921,7 @@ impl SignedDuration {
 }
 
 impl SignedDuration {
-// @fn SignedDuration::checked_neg @src src/signed_duration.rs:1748
+// @fn SignedDuration::checked_neg @src src/signed_duration.rs:1759
 
     pub const fn checked_neg(self) -> (r: Option<SignedDuration>)
     requires
@@ -908,7 +943,7 @@ impl SignedDuration {
 }
 
 impl SignedDuration {
-// @fn SignedDuration::signum @src src/signed_duration.rs:1773
+// @fn SignedDuration::signum @src src/signed_duration.rs:1784
 
     pub const fn signum(self) -> (r: i8)
     requires
@@ -928,7 +963,7 @@ impl SignedDuration {
 }
 
 impl SignedDuration {
-// @fn SignedDuration::is_positive @src src/signed_duration.rs:1796
+// @fn SignedDuration::is_positive @src src/signed_duration.rs:1807
 
     pub const fn is_positive(&self) -> (r: bool)
     requires
@@ -941,7 +976,7 @@ impl SignedDuration {
 }
 
 impl SignedDuration {
-// @fn SignedDuration::is_negative @src src/signed_duration.rs:1812
+// @fn SignedDuration::is_negative @src src/signed_duration.rs:1823
 
     pub const fn is_negative(&self) -> (r: bool)
     requires
@@ -956,7 +991,7 @@ impl SignedDuration {
 impl core::ops::Neg for SignedDuration {
 type Output = SignedDuration;
 
-// @fn <SignedDuration as core::ops::Neg>::neg @src src/signed_duration.rs:2168
+// @fn <SignedDuration as core::ops::Neg>::neg @src src/signed_duration.rs:2179
 
     fn neg(self) -> SignedDuration
 {
@@ -967,7 +1002,7 @@ type Output = SignedDuration;
 impl core::ops::Add for SignedDuration {
 type Output = SignedDuration;
 
-// @fn <SignedDuration as core::ops::Add>::add @src src/signed_duration.rs:2177
+// @fn <SignedDuration as core::ops::Add>::add @src src/signed_duration.rs:2188
 
     fn add(self, rhs: SignedDuration) -> SignedDuration
 {
@@ -978,7 +1013,7 @@ type Output = SignedDuration;
 impl core::ops::Sub for SignedDuration {
 type Output = SignedDuration;
 
-// @fn <SignedDuration as core::ops::Sub>::sub @src src/signed_duration.rs:2193
+// @fn <SignedDuration as core::ops::Sub>::sub @src src/signed_duration.rs:2204
 
     fn sub(self, rhs: SignedDuration) -> SignedDuration
 {
@@ -990,7 +1025,7 @@ type Output = SignedDuration;
 impl core::ops::Mul<i32> for SignedDuration {
 type Output = SignedDuration;
 
-// @fn <SignedDuration as core::ops::Mul<i32>>::mul @src src/signed_duration.rs:2210
+// @fn <SignedDuration as core::ops::Mul<i32>>::mul @src src/signed_duration.rs:2221
 
     fn mul(self, rhs: i32) -> SignedDuration
 {
@@ -1002,12 +1037,59 @@ type Output = SignedDuration;
 impl core::ops::Div<i32> for SignedDuration {
 type Output = SignedDuration;
 
-// @fn <SignedDuration as core::ops::Div<i32>>::div @src src/signed_duration.rs:2248
+// @fn <SignedDuration as core::ops::Div<i32>>::div @src src/signed_duration.rs:2259
 
     fn div(self, rhs: i32) -> SignedDuration
 {
         self.checked_div(rhs)
             .expect("overflow when dividing signed duration by scalar")
+    }
+}
+
+impl core::ops::Mul<SignedDuration> for i32 {
+type Output = SignedDuration;
+
+// @fn <i32 as core::ops::Mul<SignedDuration>>::mul @src src/signed_duration.rs:2243
+
+    fn mul(self, rhs: SignedDuration) -> SignedDuration
+{
+        rhs * self
+    }
+}
+
+impl core::ops::AddAssign for SignedDuration {
+// @fn <SignedDuration as core::ops::AddAssign>::add_assign @src src/signed_duration.rs:2195
+
+    fn add_assign(&mut self, rhs: SignedDuration)
+{
+        *self = *self + rhs;
+    }
+}
+
+impl core::ops::SubAssign for SignedDuration {
+// @fn <SignedDuration as core::ops::SubAssign>::sub_assign @src src/signed_duration.rs:2212
+
+    fn sub_assign(&mut self, rhs: SignedDuration)
+{
+        *self = *self - rhs;
+    }
+}
+
+impl core::ops::MulAssign<i32> for SignedDuration {
+// @fn <SignedDuration as core::ops::MulAssign<i32>>::mul_assign @src src/signed_duration.rs:2250
+
+    fn mul_assign(&mut self, rhs: i32)
+{
+        *self = *self * rhs;
+    }
+}
+
+impl core::ops::DivAssign<i32> for SignedDuration {
+// @fn <SignedDuration as core::ops::DivAssign<i32>>::div_assign @src src/signed_duration.rs:2267
+
+    fn div_assign(&mut self, rhs: i32)
+{
+        *self = *self / rhs;
     }
 }
 
